@@ -2,18 +2,27 @@ from vlib.runner import Job
 ENV=['M-frame(b): libogg framing as contract stubs (harness/vf/vf_env.h)','libvorbis decode API as contract stubs','callbacks: nondeterministic with fault injection']
 def vf_jobs(tier):
     q=tier=='quick'; J=[]
-    J.append(Job('F-open','vf/f_open.c',cuts={'vorbisfile.c':['_fetch_headers','_open_seekable2']},unwind=4,checks=['leak'],object_bits=12,
-        witnesses=['open failed','open failed with a seekable source','open succeeded'],models=ENV,tags=['C03','C12','C13'],
+    J.append(Job('F-open','vf/f_open.c',cuts={'vorbisfile.c':['_fetch_headers','_open_seekable2']},unwind=6,checks=['leak'],object_bits=12,
+        witnesses=['open failed','open failed with a seekable source','open succeeded','opened with pre-read bytes'],models=ENV,tags=['C03','C12','C13','C10'],
         functions=['ov_open_callbacks','ov_test_callbacks','ov_test_open','_ov_open1','_ov_open2','ov_clear'],bounds='one open attempt, every failure point/code of the two cut stages, seekable or streaming',weight=2))
     J.append(Job('F-io','vf/f_io.c',defs=['-DENV_BUDGET=4'],unwind=10,unwindset=[('env_fill_page',None,28)],object_bits=12,
         witnesses=['data read','seek failed','seek ok','page found','end of data'],models=ENV,tags=['C03','C10','C12'],
         functions=['_get_data','_seek_helper','_get_next_page'],bounds='<=4 framing/read events per call; offsets < 2^31; any read sizes 0..2048, any errno, seek may fail'))
     nl=2 if q else 3
-    J.append(Job('F-fetch','vf/f_fetch.c',defs=['-DENV_BUDGET=%d'%(4 if q else 4),'-DNL=%d'%nl],cuts={'vorbisfile.c':['_get_next_page','_fetch_headers']},unwind=4+3,unwindset=[('env_fill_page',None,28)],object_bits=12,
-        witnesses=['link changed','position set from a granule position','packet processed','streaming handle'],models=ENV,tags=['C03','C07','C09'],
-        functions=['_fetch_and_process_packet','_make_decode_ready','_decode_clear'],bounds='<=%d links, <=%d framing events per call; arbitrary V_vf state'%(nl,4),weight=3,mem_est=(3 if q else 10)))
+    for hs in (0,1):
+        J.append(Job('F-fetch-hs%d'%hs,'vf/f_fetch.c',defs=['-DENV_BUDGET=%d'%(4 if q else 4),'-DNL=%d'%nl,'-DHS=%d'%hs],cuts={'vorbisfile.c':['_get_next_page','_fetch_headers']},unwind=4+3,unwindset=[('env_fill_page',None,28)],object_bits=12,
+            witnesses=['link changed','position set from a granule position','position set at half rate with samples pending','packet processed','streaming handle'],models=ENV,tags=['C03','C07','C09','C08','C20'],
+            functions=['_fetch_and_process_packet','_make_decode_ready','_decode_clear'],bounds='<=%d links, <=%d framing events per call; arbitrary V_vf state'%(nl,4),weight=3,mem_est=(3 if q else 10)))
     J.append(Job('F-halfrate','vf/f_halfrate.c',defs=['-DNL=3'],cuts={'vorbisfile.c':['ov_pcm_seek']},unwind=5,object_bits=12,
         witnesses=['refused','accepted','re-seek','refusal left the running decoder alone'],models=ENV,tags=['C20','C03'],functions=['ov_halfrate','ov_halfrate_p'],bounds='<=3 links, any subset refusing, any prior state'))
+    for ch,lap in ([(1,3)] if q else [(1,3),(2,4),(1,6)]):
+        J.append(Job('getlap-c%d-n%d'%(ch,lap),'vf/getlap.c',defs=['-DCH=%d'%ch,'-DLAP=%d'%lap,'-DT=%d'%(lap+10),'-DENV_BUDGET=%d'%(5 if q else 6)],cuts={'vorbisfile.c':['_fetch_and_process_packet']},unwind=max(lap+11,12),unwindset=[('verif_memcpy',None,lap+5),('verif_memset',None,lap+5)],object_bits=12,
+            witnesses=['partly decoded, completed from lapout','fully decoded','nothing decoded'],models=ENV+['ghost decoder: one linear output stream with a read cursor; lapout contract from lapout-* (C19)'],tags=['C19','C03'],
+            functions=['_ov_getlap'],bounds='%d channel(s), lap size %d, <=%d fetches of <=3 samples each'%(ch,lap,5 if q else 6),weight=2))
+    for ds in (0,1):
+        J.append(Job('lapseek-%s'%('time' if ds else 'pcm'),'vf/seek_lap.c',defs=(['-DDSEEK'] if ds else []),cuts={'vorbisfile.c':['_ov_initset','_ov_initprime','_ov_getlap','_ov_splice']},unwind=5,object_bits=12,
+            witnesses=['rejected','seek failed','seek crossed into the other link'],models=ENV,tags=['C19','C03'],functions=['_ov_d_seek_lap' if ds else '_ov_64_seek_lap','ov_info','ov_halfrate_p'],
+            bounds='2 links, short blocks 64..4096, channels 1..3, every error return of every step'))
     J.append(Job('F-crosslap','vf/f_crosslap.c',cuts={'vorbisfile.c':['_ov_initset','_ov_initprime','_ov_getlap','_ov_splice']},unwind=5,object_bits=12,
         witnesses=['rejected','priming failed','spliced with differing half-rate flags'],models=ENV,tags=['C19','C03'],functions=['ov_crosslap','ov_info','ov_halfrate_p'],bounds='two single-link handles, short blocks 64..4096, channels 1..3'))
     for npg in ([2] if q else [2,3]):
@@ -21,8 +30,12 @@ def vf_jobs(tier):
             witnesses=['cross-link seek','middle page chosen' if npg>2 else 'cross-link seek','first-page special case'],models=ENV+['abstract page table (M-frame(c))'],tags=['C08','C07','C03','C09'],
             functions=['ov_pcm_seek_page','ov_pcm_total','_decode_clear'],bounds='2 links, %d pages in the target link, file < 64 KiB, <=10 page fetches'%npg,weight=4))
     J.append(Job('pcm-exact','vf/pcm_seek.c',defs=['-DNPK=%d'%(3 if q else 5),'-DENV_BUDGET=3'],cuts={'vorbisfile.c':['ov_pcm_seek_page','_get_next_page','_fetch_and_process_packet']},unwind=(3 if q else 5)+4,object_bits=12,
-        witnesses=['packets discarded in the second link','samples discarded up to the target','seek failed','recorded position already equals the target'],models=ENV+['contract of ov_pcm_seek_page (page-bisect)'],tags=['C08','C07','C03','C20'],
+        witnesses=['packets discarded in the second link','samples discarded up to the target','seek failed','recorded position already equals the target'],models=ENV+['contract of ov_pcm_seek_page (page-bisect)'],tags=['C08','C07','C03','C20','C19'],
         functions=['ov_pcm_seek','_make_decode_ready'],bounds='2 links, <=%d queued packets without granule positions, <=3 further packets fetched, block sizes 64..8192 per link'%(3 if q else 5),weight=3))
+    for m in (0,1):
+        J.append(Job('bisect-step-m%d'%m,'vf/bisect_step.c',defs=['-DM=%d'%m],cuts={'vorbisfile.c':['_bisect_forward_serialno','_seek_helper','_get_next_page','_get_prev_page_serial','_fetch_headers','_initial_pcmoffset']},
+            unwind=10,object_bits=12,checks=['leak'],witnesses=['link recorded','more links follow','deeper activation failed','header fetch failed','i/o failed during bisection'],models=ENV+['abstract file: current link + start of the next (M-frame(c)); contract of the recursive activation'],
+            tags=['C09','C10','C13','C03'],functions=['_bisect_forward_serialno','_lookup_serialno','_lookup_page_serialno'],bounds='one activation at link index %d, links of 200..40000 bytes (linear branch of the bisection), <=8 page fetches; any number of further links (contract)'%m,weight=2))
     for kl in ([2] if q else [2]):   # 3 links: no verdict in 3600 s / 14 GB (measured)
         J.append(Job('chain-table-%d'%kl,'vf/chain_table.c',defs=['-DKL=%d'%kl,'-DFETCHES=%d'%(10 if q else 12)],cuts={'vorbisfile.c':['_seek_helper','_get_next_page','_get_prev_page_serial','_fetch_headers','_initial_pcmoffset','ov_raw_seek']},
             unwind=(12 if q else 14),object_bits=12,witnesses=['chain opened','serial number with the top bit set'],models=ENV+['abstract chained file (M-frame(c))'],tags=['C09','C03','C13'],checks=[],
